@@ -499,6 +499,15 @@ pub fn features_of(files: &[SrcFile], builtins: &BTreeSet<String>) -> Vec<String
         }
     }
     for c in &classes {
+        // F16: two members of one class with the same name (method "overloads")
+        {
+            let mut seen_m = BTreeSet::new();
+            for (m, _) in &c.members {
+                if !seen_m.insert(m.clone()) {
+                    feats.insert("duplicate_member_name".to_string());
+                }
+            }
+        }
         // F2: a method defined before a later field in one class body
         let mut seen_method = false;
         for (_, is_method) in &c.members {
